@@ -2,7 +2,7 @@
    bytecode equality, VM results (byte-level and instruction-level fetch), source semantics vs the Go toolchain. *)
 From Coq Require Import List ZArith Bool String.
 From RG.Base Require Import Outcome GoInt GoSlice.
-From RG.Quasigo Require Import Source Bytecode Compile VM Sem Guards Link FunCorrect Correct.
+From RG.Quasigo Require Import Source Bytecode Compile VM Sem Guards Link FunCorrect Correct Encodable.
 Import ListNotations.
 Local Open Scope Z_scope.
 
@@ -143,10 +143,10 @@ Fixpoint check_calls (p : pcase) (vb : list vfunc) (vi : option (list vfunc)) (j
 Definition unsafe_roots (p : pcase) : list Z :=
   filter (reaches_unsafe (pc_funs p)) (map Z.of_nat (seq 0 (List.length (pc_funs p)))).
 
-(* is the program inside the guard of compile_correct_partial? (1 = yes) *)
+(* is the program inside the guard of compile_correct_source_guard (accepted by the compiler, source_guard)? (1 = yes) *)
 Definition scope_bit (p : pcase) : Z :=
   match compile_prog cfg (pc_funs p) with
-  | COk cs => if in_scope cfg (pc_funs p) cs then 1 else 0
+  | COk cs => if source_guard cfg (pc_funs p) then 1 else 0
   | CErr _ => 0
   end.
 
